@@ -113,7 +113,7 @@ def main():
         all_dumps[k] = d
         by_cfg.setdefault(name, []).append(k)
   # ---- spec -> code
-  nreplay = 2500 if args.tier == "quick" else 40000
+  nreplay = 2500 if args.tier == "quick" else 24000
   # water-filling over the configs (small configs are replayed completely, the rest share the remaining budget)
   chosen, left, todo = [], nreplay, sorted(by_cfg, key=lambda n: len(by_cfg[n]))
   while todo:
@@ -123,7 +123,7 @@ def main():
     left -= len(take)
   items = [dict(scn=all_dumps[k]["scn"], dump=all_dumps[k], seed=args.seed, interp=spec["interp"], tag="tlc") for k in chosen]
   # ---- random larger graphs (no prediction; judged by the predicates only)
-  nrand = 400 if args.tier == "quick" else 6000
+  nrand = 400 if args.tier == "quick" else 4000
   rand = [rgen.gen(args.seed * 1000003 + i, 3, 9 if args.tier == "thorough" else 7, nsub=1 if i % 5 else 2) for i in range(nrand)]
   # the specification's machine is run on them too (PipelineFrom.tla): design invariants + a predicted terminal state each
   rf, rdumps = pipecheck.design_run_from("%s_random" % prop, rand, spec["inv"], timeout=7200)
